@@ -64,7 +64,8 @@ CHECKS = {
    text='GenChars enumerates every concatenation of at most k lexemes over five alphabets (structural characters, literal characters and '
         'escapes, operator spellings, keywords/functions, hash syntax); the specification decides the static outcome of each and TLC '
         'prints the non-rejected ones; the harness enumerates the same strings, compiles each with the real library and requires a syntax '
-        'error exactly for the rest (both directions: member rejected, non-member accepted), and MustCompile panics iff Compile fails.',
+        'error exactly for the rest (both directions: member rejected, non-member accepted), and MustCompile panics iff Compile fails. '
+        'GenSweep adds 40 token families (literals of every kind, well- and ill-formed) at every length 0..1100 (thorough 9000), the outcome being a function of the length checked by TLC on the small members.',
    note='Exhaustive only up to k lexemes per alphabet; texts whose treatment the standard leaves open (blanks inside [*], let/in as names, unpaired surrogates) admit both verdicts.'),
  'C05': dict(
    level='model_checking', ref='DESIGN.md 6 (C05), 3.2',
@@ -122,7 +123,8 @@ CHECKS = {
    technique='APIConc.tla interleavings enumerated by TLC and replayed into real goroutines gated by the evaluate-entry hook; the same call sets ungated under the Go race detector',
    text='APIConc splits every call into gate-delimited segments and TLC enumerates all interleavings of the goroutines; each complete schedule is '
         'replayed with the verif step hook as scheduler gate and every outcome is compared with the outcome the call has alone; the call sets '
-        'also run ungated from 8 goroutines in a -race build (a race report is a violation).',
+        'also run ungated from 8 goroutines in a -race build (a race report is a violation); in the same build every expression of GenApply and '
+        'GenCall is compiled afresh and first evaluated by 4 goroutines released together on one shared document.',
    note='Schedule control is at evaluate-entry granularity; data races are found only on code the chosen call sets execute.'),
  'C08': dict(
    level='model_checking', ref='DESIGN.md 6 (C08)',
@@ -130,7 +132,7 @@ CHECKS = {
    text='GenFault holds one template per static fault class and per run-time fault site (TLC checks each has a single admissible category '
         'and that static ones ignore the document); every template runs on every pool document; GenCall contributes all failing calls and '
         'API.tla the Compile / Expression.Search split. On every failure the harness requires a nil result, exactly one matching exported '
-        'category, the specified category, and a formattable error.',
+        'category, the specified category, and a formattable error. 304 further templates raise each run-time fault only at the k-th element of an iterating construct.',
    note='Multi-fault expressions admit every category present.'),
  'C09': dict(
    level='exploration', ref='DESIGN.md 6 (C09), 8',
